@@ -279,6 +279,34 @@ def check_graph(schema, files, main="a.conf", validator=False, schema_xml=None):
                         out.append(("validator:raises:%s" % type(e).__name__, "stdin %s: %s" % (label_, str(e)[:200])))
                     finally:
                         _sys0.stdin = old0
+                # no file argument and a terminal as standard input: only the schema is checked,
+                # nothing is read
+                class _Tty(io.StringIO):
+                    reads = 0
+
+                    def isatty(self):
+                        return True
+
+                    def read(self, *a):
+                        _Tty.reads += 1
+                        return io.StringIO.read(self, *a)
+
+                    def readline(self, *a):
+                        _Tty.reads += 1
+                        return io.StringIO.readline(self, *a)
+                old0 = _sys0.stdin
+                try:
+                    _sys0.stdin = _Tty("<no-such-section>\n")
+                    with contextlib.redirect_stderr(io.StringIO()), contextlib.redirect_stdout(io.StringIO()):
+                        rc0 = ZConfig.validator.main(["-s", spath])
+                    if rc0 != 0 or _Tty.reads:
+                        out.append(("validator:schema-only:wrong-status", "terminal as stdin, valid schema: returned %r, %d reads" % (rc0, _Tty.reads)))
+                except SystemExit as e:
+                    out.append(("validator:schema-only:SystemExit", repr(e.code)))
+                except Exception as e:  # noqa
+                    out.append(("validator:schema-only:raises:%s" % type(e).__name__, str(e)[:200]))
+                finally:
+                    _sys0.stdin = old0
                 # no file argument: the one configuration is read from standard input (a pipe)
                 import sys as _sys
                 first = names[0]
